@@ -8,6 +8,8 @@
 //	partial-answer   F82  clntQuerier.Query drops the decoding error: a partly decoded answer is handed over as success with
 //	                      a prefix of the events and a zero next request
 //	statefile        F83  forwarder.json is truncated and re-written in place (same root and repair as C17's F60)
+//	syslog-reconnect —    (no finding; the sink's contract) the real syslog sink over TCP to a receiver that resets the connection
+//	                      between two batches: a batch OnEvent reports as accepted must have reached the receiver
 //	buffer-reused    —    (no finding; correspondence of the client's contract) what clntQuerier.Query hands over must not
 //	                      point into the response buffer it gives back to the transport's pool
 package main
@@ -17,6 +19,7 @@ import (
 	"encoding/json"
 	"errors"
 	"fmt"
+	"net"
 	"os"
 	"path/filepath"
 	"strings"
@@ -286,6 +289,132 @@ func runLeadBufferReused(in leadInput) {
 	}
 }
 
+// syslogReceiver is a TCP syslog receiver that keeps everything it reads and can reset the connection it has open
+type syslogReceiver struct {
+	ln   net.Listener
+	mu   sync.Mutex
+	got  []byte
+	cur  net.Conn
+	nCon int
+}
+
+func newSyslogReceiver() (*syslogReceiver, error) {
+	ln, err := net.Listen("tcp", "127.0.0.1:0")
+	if err != nil {
+		return nil, err
+	}
+	r := &syslogReceiver{ln: ln}
+	go func() {
+		for {
+			c, err := ln.Accept()
+			if err != nil {
+				return
+			}
+			r.mu.Lock()
+			r.cur = c
+			r.nCon++
+			r.mu.Unlock()
+			go func(c net.Conn) {
+				buf := make([]byte, 4096)
+				for {
+					n, err := c.Read(buf)
+					r.mu.Lock()
+					r.got = append(r.got, buf[:n]...)
+					r.mu.Unlock()
+					if err != nil {
+						return
+					}
+				}
+			}(c)
+		}
+	}()
+	return r, nil
+}
+
+func (r *syslogReceiver) has(tok string) bool {
+	r.mu.Lock()
+	defer r.mu.Unlock()
+	return strings.Contains(string(r.got), tok)
+}
+
+// reset closes the open connection with a TCP reset (linger 0): the sender's next write fails
+func (r *syslogReceiver) reset() {
+	r.mu.Lock()
+	c := r.cur
+	r.mu.Unlock()
+	if tc, ok := c.(*net.TCPConn); ok {
+		tc.SetLinger(0)
+		tc.Close()
+	}
+}
+
+// the sink's contract as the worker uses it: OnEvent = nil means the batch is delivered (the position moves on, the batch
+// is never offered again); an error means "offer the same batch again"
+func runLeadSyslogReconnect(in leadInput) {
+	rcv, err := newSyslogReceiver()
+	if err != nil {
+		res.Note("leads/syslog-reconnect: %v", err)
+		return
+	}
+	defer rcv.ln.Close()
+	snk, err := sink.NewSink(&sink.Config{Type: sink.SnkTypeSyslog, Params: sink.Params{"Protocol": "tcp", "RemoteAddr": rcv.ln.Addr().String()}})
+	if err != nil {
+		res.Note("leads/syslog-reconnect: %v", err)
+		return
+	}
+	defer snk.Close()
+	tok := func(i int) string { return fmt.Sprintf("syslog-event-%04d-payload", i) }
+	batch := func(b int) []*api.LogEvent {
+		var evs []*api.LogEvent
+		for i := 0; i < 3; i++ {
+			evs = append(evs, &api.LogEvent{Timestamp: int64(b*3 + i + 1), Tags: "src=leads", Message: tok(b*3+i) + "\n"})
+		}
+		return evs
+	}
+	waitHas := func(t string) bool {
+		for t0 := time.Now(); time.Since(t0) < 3*time.Second; time.Sleep(10 * time.Millisecond) {
+			if rcv.has(t) {
+				return true
+			}
+		}
+		return rcv.has(t)
+	}
+	offers, errs := 0, 0
+	for b := 0; b < 3; b++ {
+		if b == 1 && !in.Control {
+			// batch 0 has arrived completely; the receiver resets the connection; give the reset time to reach the sender
+			rcv.reset()
+			time.Sleep(300 * time.Millisecond)
+		}
+		accepted := false
+		for try := 0; try < 5 && !accepted; try++ {
+			offers++
+			if err := snk.OnEvent(batch(b)); err != nil {
+				errs++
+				time.Sleep(50 * time.Millisecond) // the worker would sleep 5 s and offer the same batch again
+				continue
+			}
+			accepted = true
+		}
+		if !accepted {
+			leadFail(in, "sink-never-accepts", "", fmt.Sprintf("batch %d was refused 5 times although the receiver accepts connections", b), "accepted after a reconnect", "the syslog sink must recover from a reset connection")
+			return
+		}
+		for i := 0; i < 3; i++ {
+			if !waitHas(tok(b*3 + i)) {
+				leadFail(in, "accepted-batch-not-delivered", "",
+					fmt.Sprintf("OnEvent returned nil for batch %d (offers so far %d, errors reported %d, connections %d) but event %q never reached the receiver", b, offers, errs, rcv.nCon, tok(b*3+i)),
+					"every event of a batch the sink accepted has been written to the receiver",
+					"the real syslog sink (sink.NewSink, syslog.Logger over TCP) against a receiver that reset the connection between two batches: a failed write must be reported so that the worker offers the batch again; a batch reported as accepted is never offered again")
+				return
+			}
+		}
+	}
+	if !in.Control && errs == 0 {
+		res.Note("leads/syslog-reconnect: no write failed after the receiver had reset the connection — schedule not reached")
+	}
+}
+
 // F83: forwarder.json
 func runLeadStatefile(srv *lrsrv.Srv, in leadInput, seq int) {
 	src := fmt.Sprintf("leadsrc=s%d", seq)
@@ -393,6 +522,8 @@ func runLead(srv *lrsrv.Srv, in leadInput) {
 		runLeadStatefile(srv, in, seq)
 	case "buffer-reused":
 		runLeadBufferReused(in)
+	case "syslog-reconnect":
+		runLeadSyslogReconnect(in)
 	default:
 		res.Note("leads: unknown kind %q", in.Kind)
 	}
@@ -403,6 +534,7 @@ const leadsRule = "deterministic schedules on the real forwarder session (StartV
 	"ensure-error — the first EnsurePipe returns an error; in both the harness then ensures the pipe itself and writes 5 events into the source: within 12 s (two retry periods) they must reach the sink; " +
 	"partial-answer — the real client-side Query over a transport that delivers every proper prefix of an encoded 4-event answer: a body that cannot be decoded completely must not be handed over as a success; " +
 	"statefile — real file storage; the way WriteData replaces forwarder.json is observed through a hard link; if in place, the states a crash during a save passes through (empty, a prefix) are installed and a new session is started: nothing may be re-delivered and it must start. " +
+	"syslog-reconnect — the real syslog sink (sink.NewSink over TCP) hands three batches to a receiver that resets the connection after the first: a batch OnEvent reports as accepted must have reached the receiver (a failed write is an error, the batch is offered again). " +
 	"buffer-reused — the real client-side Query over a transport that overwrites the response buffer as soon as the client has collected it (what the process-wide buffer pool does when the next answer arrives on the shared client): the events and the next request handed over must still say what the server sent. " +
 	"Each with its control (no failure; complete body; complete state file). The witnesses of the open findings come from the corpus. non-trivial = every schedule"
 
@@ -416,7 +548,7 @@ func sectionLeads() {
 	for _, k := range []string{"ensure-swallowed", "partial-answer", "statefile"} {
 		ins = append(ins, leadInput{Kind: k, Control: true})
 	}
-	ins = append(ins, leadInput{Kind: "buffer-reused"})
+	ins = append(ins, leadInput{Kind: "buffer-reused"}, leadInput{Kind: "syslog-reconnect"}, leadInput{Kind: "syslog-reconnect", Control: true})
 	srv, err := lrsrv.Start(lrsrv.NewDir(), lrsrv.Opts{})
 	if err != nil {
 		res.Note("leads: %v", err)
